@@ -78,6 +78,15 @@ MUTANTS = [
     ("c11-negative-control-packrat", "C11", "pydbml/parser/parser.py",
      "_grammar_lock = RLock()", "_grammar_lock = RLock()\npp.ParserElement.enable_packrat()", "passes",
      "NEGATIVE CONTROL: packrat under the lock changes nothing observable; must stay silent"),
+    # ---------------- C10
+    ("c10-full-name-cache", "C10", "pydbml/renderer/sql/default/utils.py",
+     "def get_full_name_for_sql(model: Union[Table, Enum]) -> str:\n    if model.schema == 'public':",
+     "_names: dict = {}\n\n\ndef get_full_name_for_sql(model: Union[Table, Enum]) -> str:\n    if id(model) in _names:\n        return _names[id(model)]\n    _names[id(model)] = _full_name(model)\n    return _names[id(model)]\n\n\ndef _full_name(model: Union[Table, Enum]) -> str:\n    if model.schema == 'public':",
+     "passes", "SQL full names cached per object"),
+    ("c10-column-type-memo", "C10", "pydbml/renderer/sql/default/column.py",
+     "    if isinstance(model.type, Enum):\n        components.append(get_full_name_for_sql_enum(model.type))",
+     "    if isinstance(model.type, Enum):\n        components.append(model.__dict__.setdefault('_enum_sql', get_full_name_for_sql_enum(model.type)))",
+     "passes", "enum type name of a column memoised at first SQL render"),
     # ---------------- C12
     ("c12-no-bom-parse-file", "C12", "pydbml/parser/parser.py",
      "                source = f.read()\n        source = remove_bom(source)\n        parser = PyDBMLParser(source)",
